@@ -38,13 +38,99 @@ def run_impl(ctx, cases, tag='impl'):
     return res['element_types'], {x['id']: x['results'] for x in res['cases']}
 
 
+# ------------------------------------------- in-place modification histories
+def mesh_at(c, qi):
+    """the mesh the qi-th step of case c sees (histories with in-place
+    modifications carry one mesh per state)"""
+    q = c['queries'][qi]
+    if 'meshes' in c and '_m' in q:
+        return c['meshes'][q['_m']]
+    return c['mesh']
+
+
+def apply_mod_py(mesh, mod):
+    """what the in-place modification does to the mesh (harness mirror; the
+    queries that follow pin it through the correspondence)"""
+    m = copy.deepcopy(mesh)
+    if mod['op'] == 'set_conn':
+        assert len(m['blocks']) == 1
+        t, rows = m['blocks'][0]
+        m['blocks'] = [[t, [[e, list(mod['rows'][str(e)])] for e, _ in rows]]]
+    elif mod['op'] == 'remove_useless_nodes':
+        used = set(n for _, rows in m['blocks'] for _, c in rows for n in c)
+        if any(r[0] not in used for r in m['nodes']):
+            # the surviving nodes are re-stored in ascending id order
+            m['nodes'] = sorted(r for r in m['nodes'] if r[0] in used)
+    return m
+
+
+def new_connectivity(rng, mesh):
+    """a different, valid connectivity for the (single) block"""
+    t, rows = mesh['blocks'][0]
+    how = rng.choice(['permute-rows', 'reverse-rows', 'rotate-rows', 'swap-node'])
+    conns = [list(c) for _, c in rows]
+    if how == 'permute-rows' and len(rows) > 1:
+        k = rng.randint(1, len(rows) - 1)
+        conns = conns[k:] + conns[:k]
+    elif how == 'reverse-rows':
+        conns = [c[::-1] for c in conns]
+    elif how == 'rotate-rows':
+        k = rng.randint(1, 3)
+        conns = [c[k:] + c[:k] for c in conns]
+    else:
+        used = sorted(set(n for c in conns for n in c))
+        unused = [r[0] for r in mesh['nodes'] if r[0] not in used]
+        a = rng.choice(used)
+        b2 = rng.choice(unused) if unused and rng.random() < 0.7 else rng.choice(used)
+        sw = {a: b2, b2: a}
+        conns = [[sw.get(n, n) for n in c] for c in conns]
+    return {'kind': 'mod', 'op': 'set_conn', 'how': how,
+            'rows': {str(e): c for (e, _), c in zip(rows, conns)}}
+
+
+def history_case(rng, base):
+    """queries / in-place modification / the same queries again, on ONE object"""
+    mesh = base['mesh']
+    second = any('2' in t for t, _ in mesh['blocks'])
+    probe = [{'kind': 'inc', 'order1': o} for o in ([False, True] if second else [False])]
+    probe += [{'kind': 'adj', 'nodal': True, 'order1': second, 'via': 'direct'},
+              {'kind': 'adj', 'nodal': False, 'order1': False, 'via': 'noarg'},
+              {'kind': 'lap', 'nodal': rng.random() < 0.5, 'order1': second},
+              {'kind': 'hop', 'nodal': True, 'n': 2, 'self_loop': True, 'order1': second},
+              {'kind': 'grad', 'nodal': False, 'order1': second}]
+    meshes = [mesh]
+    steps = []
+
+    def ask():
+        qs = copy.deepcopy(probe)
+        rng.shuffle(qs)
+        for q in qs:
+            q['_m'] = len(meshes) - 1
+        steps.extend(qs)
+    ask()
+    mods = []
+    if len(mesh['blocks']) == 1:
+        mods.append('set_conn')
+    mods.append('remove_useless_nodes')
+    if len(mesh['blocks']) == 1 and rng.random() < 0.5:
+        mods.append('set_conn')
+    for op in mods:
+        mod = new_connectivity(rng, meshes[-1]) if op == 'set_conn' else \
+            {'kind': 'mod', 'op': 'remove_useless_nodes'}
+        mod['_m'] = len(meshes) - 1
+        steps.append(mod)
+        meshes.append(apply_mod_py(meshes[-1], mod))
+        ask()
+    return {'mesh': mesh, 'meshes': meshes, 'queries': steps, 'shared': True, 'history': True}
+
+
 # ------------------------------------------------- canonical form of results
 def canon(q, r):
     """implementation result -> (shape, sorted triples) | 'error'.
     edge-gradient: the order of the edge rows inside one source vertex follows
     scipy's unsorted CSR product and is not part of the property: rows are
     sorted by their (column, value) lists."""
-    if 'exc' in r:
+    if 'exc' in r or 'mod' in r:
         return None
     tr = [tuple(t) for t in r['triples']]
     if q['kind'] == 'grad':
@@ -138,6 +224,8 @@ def oracle(mesh, q, r, elem_ids):
         o1 = False      # documented signature: order1_only is a nodal option
     if k == 'e2v':
         o1 = False
+    if k == 'adj' and q.get('via') == 'dispatch' and not nodal:
+        o1 = False      # calculate_adjacency_matrix: "Effective only when mode == 'nodal'"
     n, adj, inc, _ = graph_of(mesh, nodal, o1, elem_ids)
     if k == 'adj':
         exp = sorted((i, j, 1) for i in range(n) for j in adj[i])
@@ -231,7 +319,8 @@ def q_to_coq(q):
     if k == 'inc':
         return f"QInc {b(q['order1'])}"
     if k == 'adj':
-        return f"QAdj {b(q['nodal'])} {b(q['order1'])}"
+        o1 = q['order1'] and not (q.get('via') == 'dispatch' and not q['nodal'])
+        return f"QAdj {b(q['nodal'])} {b(o1)}"
     if k == 'hop':
         return (f"QHop {b(q['nodal'])} {int(q['n'])} {b(q['self_loop'])} {b(q['order1'])} "
                 f"{b(VARIANT['hop_zero_diag'])}")
@@ -263,12 +352,29 @@ Set Printing Depth 100000.
 
 
 def coq_check(ctx, cases, results, name):
-    """-> {case id: [failing query indices]} (None = the file did not compile)"""
+    """-> {case id: [failing step indices]} (None = the file did not compile).
+    A history case is cut into segments of consecutive queries on the same
+    mesh state; every segment is one `check_case` on that state's mesh."""
     out = {}
-    chunk, size, files = [], 0, []
+    entries = []            # (case, [step indices], mesh)
     for c in cases:
-        chunk.append(c)
-        size += len(c['queries'])
+        out[c['id']] = []
+        cur, cur_mesh = [], None
+        for qi, q in enumerate(c['queries']):
+            if q['kind'] == 'mod':
+                continue
+            mk = q.get('_m', 0) if 'meshes' in c else 0
+            if cur and mk != cur_mesh:
+                entries.append((c, cur, mesh_at(c, cur[0])))
+                cur = []
+            cur_mesh = mk
+            cur.append(qi)
+        if cur:
+            entries.append((c, cur, mesh_at(c, cur[0])))
+    files, chunk, size = [], [], 0
+    for e in entries:
+        chunk.append(e)
+        size += len(e[1])
         if size >= 400:
             files.append(chunk)
             chunk, size = [], 0
@@ -276,10 +382,11 @@ def coq_check(ctx, cases, results, name):
         files.append(chunk)
     for fi, chunk in enumerate(files):
         items = []
-        for c in chunk:
-            qs = '; '.join(f"({q_to_coq(q)}, {res_to_coq(canon(q, r))})"
-                           for q, r in zip(c['queries'], results[c['id']]))
-            items.append(f"({c['id']}%nat, check_case {gen.mesh_to_coq(c['mesh'], lib)}\n   [{qs}])")
+        for k, (c, idx, mesh) in enumerate(chunk):
+            qs = '; '.join(f"({q_to_coq(c['queries'][qi])}, "
+                           f"{res_to_coq(canon(c['queries'][qi], results[c['id']][qi]))})"
+                           for qi in idx)
+            items.append(f"({k}%nat, check_case {gen.mesh_to_coq(mesh, lib)}\n   [{qs}])")
         txt = HEADER + 'Definition cases : list (nat * list nat) := [\n' + ';\n'.join(items) + '].\n'
         txt += 'Goal True. idtac "@@ failing". Abort.\n'
         txt += ('Eval vm_compute in filter (fun c => match snd c with [] => false | _ => true end) '
@@ -287,16 +394,15 @@ def coq_check(ctx, cases, results, name):
         rc, o, err = ctx.coq_eval(f'{name}_{fi}', txt, timeout=900)
         if rc != 0:
             ctx.log('correspondence file failed to compile:', err[-600:])
-            for c in chunk:
+            for c, _, _ in chunk:
                 out[c['id']] = None
             continue
         t = lib.parse_marked(o).get('failing', '')
         t = t.split(': list')[0].replace('%nat', '')
-        got = {}
         for m in re.finditer(r'\((\d+),\s*\[([0-9;\s]*)\]\)', t):
-            got[int(m.group(1))] = [int(x) for x in re.findall(r'\d+', m.group(2))]
-        for c in chunk:
-            out[c['id']] = got.get(c['id'], [])
+            c, idx, _ = chunk[int(m.group(1))]
+            if out[c['id']] is not None:
+                out[c['id']] += [idx[int(x)] for x in re.findall(r'\d+', m.group(2))]
     return out
 
 
@@ -319,9 +425,9 @@ def queries_for(rng, mesh, tier):
     qs.append({'kind': 'hop', 'nodal': rng.random() < 0.5, 'n': rng.choice([1, 2, 3]),
                'self_loop': False, 'order1': False})
     for nd in (True, False):
-        o = rng.choice(o1s)
-        qs.append({'kind': 'lap', 'nodal': nd, 'order1': o})
-        qs.append({'kind': 'grad', 'nodal': nd, 'order1': o})
+        for o in (o1s if (second and not nd) else [rng.choice(o1s)]):
+            qs.append({'kind': 'lap', 'nodal': nd, 'order1': o})
+            qs.append({'kind': 'grad', 'nodal': nd, 'order1': o})
         qs.append({'kind': 'e2v', 'nodal': nd, 'self_loop': False})
     qs.append({'kind': 'e2v', 'nodal': rng.random() < 0.5, 'self_loop': True})
     return qs
@@ -349,10 +455,12 @@ def malformed(rng, mesh):
 def gen_cases(ctx):
     n_mesh = 60 if ctx.tier == 'quick' else 450
     cases = []
-    kinds = list(gen.KINDS)
+    kinds = list(gen.KINDS) + list(gen.NONCONFORMING)
     for i in range(n_mesh):
         kind = kinds[i % len(kinds)] if i < 2 * len(kinds) else None
         mx = 26 if ctx.tier == 'quick' else ctx.rng.choice([26, 26, 40])
+        if kind is None and ctx.rng.random() < 0.15:
+            kind = ctx.rng.choice(gen.NONCONFORMING)
         mesh = gen.gen_mesh(ctx.rng, kind=kind, max_nodes=mx)
         cases.append({'id': len(cases), 'mesh': mesh,
                       'queries': queries_for(ctx.rng, mesh, ctx.tier)})
@@ -371,6 +479,14 @@ def gen_cases(ctx):
             lead.append({'kind': 'e2v', 'nodal': nd, 'self_loop': False})
             lead.append({'kind': 'hop', 'nodal': nd, 'n': 1, 'self_loop': True, 'order1': False})
         cases.append({'id': len(cases), 'mesh': c['mesh'], 'queries': lead + qs, 'shared': True})
+    # history stream: queries / in-place modification (connectivity assignment,
+    # remove_useless_nodes) / the same queries again on ONE object; the model is
+    # evaluated on the mesh as modified
+    base = [c for c in cases if not c.get('shared')]
+    for c in base[1::4]:
+        h = history_case(ctx.rng, c)
+        h['id'] = len(cases)
+        cases.append(h)
     for i in range(4 if ctx.tier == 'quick' else 20):
         mesh = gen.gen_mesh(ctx.rng, kind=ctx.rng.choice(['tri', 'tet', 'hex']), n_unref=0)
         m, qs = malformed(ctx.rng, mesh)
@@ -397,10 +513,14 @@ def evaluate(ctx, cases, name):
                 elem_ids = r['elem_ids']
                 break
         for qi, (q, r) in enumerate(zip(c['queries'], results[c['id']])):
+            if q['kind'] == 'mod':
+                if 'exc' in r:
+                    fails.append((qi, 'in-place modification raised ' + r['exc']))
+                continue
             if elem_ids is None:
                 fails.append((qi, 'no element order available: ' + str(r.get('exc'))))
                 continue
-            d = oracle(c['mesh'], q, r, r.get('elem_ids', elem_ids))
+            d = oracle(mesh_at(c, qi), q, r, r.get('elem_ids', elem_ids))
             if d is not None:
                 fails.append((qi, d))
         oracle_fail[c['id']] = fails
@@ -422,8 +542,9 @@ def evaluate(ctx, cases, name):
         for c in cases:
             idx = [qi for qi, q in enumerate(c['queries']) if variant_class(q) in classes]
             if idx and corr.get(c['id']) is not None:
-                sub.append({'id': c['id'], 'mesh': c['mesh'],
-                            'queries': [c['queries'][qi] for qi in idx]})
+                sub.append(dict({'id': c['id'], 'mesh': c['mesh'],
+                                 'queries': [c['queries'][qi] for qi in idx]},
+                                **({'meshes': c['meshes']} if 'meshes' in c else {})))
                 back[c['id']] = idx
         res2 = {c['id']: [results[c['id']][qi] for qi in back[c['id']]] for c in sub}
         corr2 = coq_check(ctx, sub, res2, name + '_' + '_'.join(sorted(classes)))
@@ -477,7 +598,8 @@ def shrink(ctx, case, qi, pred, rounds=6):
     oracle_fail, corr, id)` still holds for query qi"""
     cur = {'id': 0, 'mesh': case['mesh'], 'queries': [case['queries'][qi]]}
     if case.get('shared'):
-        return {'id': 0, 'mesh': case['mesh'], 'queries': case['queries'][:qi + 1],
+        meshes, steps = rebuild_history(case['mesh'], case['queries'][:qi + 1])
+        return {'id': 0, 'mesh': case['mesh'], 'meshes': meshes, 'queries': steps,
                 'shared': True}
     for rd in range(rounds):
         cands = []
@@ -509,6 +631,22 @@ def shrink(ctx, case, qi, pred, rounds=6):
             break
         cur = {'id': 0, 'mesh': nxt['mesh'], 'queries': cur['queries']}
     return cur
+
+
+def strip(q):
+    return {k: v for k, v in q.items() if k != '_m'}
+
+
+def rebuild_history(mesh, steps):
+    """mesh states of a step list (queries and modifications) on one object"""
+    meshes = [mesh]
+    out = []
+    for q in steps:
+        q = dict(strip(q), _m=len(meshes) - 1)
+        out.append(q)
+        if q['kind'] == 'mod':
+            meshes.append(apply_mod_py(meshes[-1], q))
+    return meshes, out
 
 
 def describe(mesh):
@@ -547,11 +685,15 @@ def report(ctx, cases, ev, do_shrink=True):
                 r = run_impl(ctx, [small], tag='shrunk')[1][0][sqi]
             if c.get('shared'):
                 sig = dict(sig, same_object_sequence=True)
+            if c.get('history'):
+                sig = dict(sig, after_in_place_modification=any(
+                    x['kind'] == 'mod' for x in small['queries'][:sqi]))
             ctx.violation('impl-violation',
-                          {'mesh': describe(small['mesh']), 'query': small['queries'][sqi],
+                          {'mesh': describe(small['mesh']), 'query': strip(small['queries'][sqi]),
                            'shared_object': bool(small.get('shared')),
                            'earlier_queries_on_the_same_object':
-                               small['queries'][:sqi] if small.get('shared') else []},
+                               [strip(x) for x in small['queries'][:sqi]]
+                               if small.get('shared') else []},
                           'matrix equals its combinatorial definition (' + d + ')',
                           {k: r.get(k) for k in ('shape', 'triples', 'exc', 'msg', 'elem_ids')},
                           'property oracle on the implementation / C13 theorems',
@@ -586,11 +728,15 @@ def report(ctx, cases, ev, do_shrink=True):
                 r = run_impl(ctx, [small], tag='shrunk')[1][0][sqi]
             if c.get('shared'):
                 sig = dict(sig, same_object_sequence=True)
+            if c.get('history'):
+                sig = dict(sig, after_in_place_modification=any(
+                    x['kind'] == 'mod' for x in small['queries'][:sqi]))
             ctx.violation('correspondence',
-                          {'mesh': describe(small['mesh']), 'query': small['queries'][sqi],
+                          {'mesh': describe(small['mesh']), 'query': strip(small['queries'][sqi]),
                            'shared_object': bool(small.get('shared')),
                            'earlier_queries_on_the_same_object':
-                               small['queries'][:sqi] if small.get('shared') else []},
+                               [strip(x) for x in small['queries'][:sqi]]
+                               if small.get('shared') else []},
                           'Model.run_query = implementation (sorted COO triples)',
                           {k: r.get(k) for k in ('shape', 'triples', 'exc', 'msg', 'elem_ids')},
                           'correspondence C13 (Model.run_query)',
@@ -665,12 +811,18 @@ def main(ctx):
         ctx.count('object:' + ('one-shared-for-the-sequence' if c.get('shared') else 'fresh-per-query'))
         if tg.get('malformed'):
             ctx.count('malformed:' + tg['malformed'])
-        for q, r in zip(c['queries'], results[c['id']]):
+        if c.get('history'):
+            ctx.count('object:history-with-in-place-modifications')
+        for qi, (q, r) in enumerate(zip(c['queries'], results[c['id']])):
+            if q['kind'] == 'mod':
+                ctx.count('modification:' + q['op'] + (':' + q['how'] if 'how' in q else ''))
+                continue
             nq += 1
             ctx.count('query:' + q['kind'])
             ctx.count('impl:' + ('raised ' + r['exc'] if 'exc' in r else 'matrix'))
-            ctx.case([describe(c['mesh']), q], nontrivial=bool(r.get('triples')),
-                     sample={'mesh': describe(c['mesh']), 'query': q,
+            ctx.case([describe(mesh_at(c, qi)), strip(q), qi if c.get('shared') else 0],
+                     nontrivial=bool(r.get('triples')),
+                     sample={'mesh': describe(mesh_at(c, qi)), 'query': strip(q),
                              'impl': {k: r.get(k) for k in ('shape', 'triples', 'exc')}}
                      if len(c['mesh']['nodes']) <= 8 else None)
     n_oracle, n_corr = report(ctx, cases, ev)
@@ -701,8 +853,11 @@ def replay(path):
             'tags': {'kind': 'replay'}}
     pre = c.get('earlier_queries_on_the_same_object', []) if c.get('shared_object') else []
     k = len(pre)
-    case = {'id': 0, 'mesh': mesh, 'shared': bool(c.get('shared_object')),
-            'queries': pre + [c['query'], {'kind': 'inc', 'order1': False}]}
+    meshes, steps = rebuild_history(mesh, pre + [c['query'], {'kind': 'inc', 'order1': False}])
+    for m in meshes[1:]:
+        m['tags'] = {'kind': 'replay'}
+    case = {'id': 0, 'mesh': mesh, 'meshes': meshes, 'shared': bool(c.get('shared_object')),
+            'queries': steps}
     lib.coq_make(['C13/Model.vo'])
     types, results, oracle_fail, corr = evaluate(ctx, [case], 'replay')
     print('implementation:', json.dumps(results[0][k]))
